@@ -21,6 +21,7 @@ TOK = re.compile(r'''
   | (?P<loc>%[-a-zA-Z$._0-9]+)
   | (?P<glob>@[-a-zA-Z$._0-9]+)
   | (?P<meta>![-a-zA-Z$._0-9]*)
+  | (?P<comdat>\$"(?:[^"\\]|\\[0-9A-Fa-f]{2})*"|\$[-a-zA-Z$._0-9]+)
   | (?P<attr>\#\d+)
   | (?P<hexf>0x[KLMHR]?[0-9A-Fa-f]+)
   | (?P<num>-?\d+\.\d*(?:[eE][-+]?\d+)?|-?\d+)
@@ -242,6 +243,21 @@ class Module:
                 i += 1
         return Ty('lit', fields=fields, packed=packed), i + 1
 
+    def is_union(self, ty):
+        return ty.k == 'named' and ty.name.strip('"').startswith('union.') and self.named.get(ty.name) is not None
+
+    def field_offset(self, lit, idx):
+        off = 0
+        for j, f in enumerate(lit.fields):
+            fs, fa = self.size_align(f)
+            if lit.packed:
+                fa = 1
+            off = (off + fa - 1) // fa * fa
+            if j == idx:
+                return off
+            off += fs
+        raise IndexError(idx)
+
     def resolve(self, ty):
         """named -> body (Ty lit) or None if opaque"""
         if ty.k == 'named':
@@ -350,6 +366,10 @@ class Module:
                 body = self.named.get(ty.name)
                 if body is None:
                     out.append('%s { char _opaque; };' % c)
+                    return
+                if self.is_union(ty):
+                    sz, al = self.size_align(ty)
+                    out.append('%s { uint8_t u[%d]; } __attribute__((aligned(%d)));' % (c, sz, al))
                     return
                 fields, packed = body.fields, body.packed
             elif k == 'lit':
@@ -743,6 +763,19 @@ def compute_type(bits):
     return 'unsigned __int128'
 
 
+def self_skip_group(t, j):
+    d = 0
+    while True:
+        k, v = t[j]
+        if k == 'p' and v in '([{<':
+            d += 1
+        elif k == 'p' and v in ')]}>':
+            d -= 1
+            if d == 0:
+                return j + 1
+        j += 1
+
+
 def Module_const_value(self, ty, t, i, ft=None):
     k, v = t[i]
     ct = self.ct
@@ -852,6 +885,12 @@ def Module_const_value(self, ty, t, i, ft=None):
     if k == 'cstr':
         bs = cstr_bytes(v)
         return '{ {%s} }' % ','.join(str(b) for b in bs), i + 1
+    if k == 'p' and v in '{[<' and ty.k == 'named' and self.is_union(ty):
+        j = self_skip_group(t, i)
+        vals = t[i:j]
+        if any(x[0] in ('glob', 'gq', 'loc', 'lq') or (x[0] == 'num' and x[1] not in ('0',)) for x in vals):
+            self.warnings.append('non-zero initialiser of union %s replaced by zero' % ty.name)
+        return '{ {0} }', j
     if k == 'p' and v in '{[<':
         packed = False
         if v == '<' and t[i + 1][1] == '{':
@@ -900,6 +939,40 @@ def Module_global_ref(self, name, ty):
     raise KeyError('unknown global @' + name)
 
 
+def Module_size_align(self, ty):
+    k = ty.k
+    if k == 'int':
+        b = (ty.bits + 7) // 8
+        p = 1
+        while p < b:
+            p *= 2
+        return p, min(p, 16)
+    if k == 'ptr':
+        return 8, 8
+    if k == 'fp':
+        return {'float': (4, 4), 'double': (8, 8), 'x86_fp80': (16, 16), 'half': (2, 2), 'fp128': (16, 16)}[ty.name]
+    if k in ('arr', 'vec'):
+        es, ea = self.size_align(ty.elem)
+        return es * ty.n, ea
+    if k == 'named':
+        body = self.named.get(ty.name)
+        if body is None:
+            return 0, 1
+        return self.size_align(body)
+    if k == 'lit':
+        off = 0
+        al = 1
+        for f in ty.fields:
+            fs, fa = self.size_align(f)
+            if ty.packed:
+                fa = 1
+            off = (off + fa - 1) // fa * fa + fs
+            al = max(al, fa)
+        off = (off + al - 1) // al * al
+        return off, al
+    return 0, 1
+
+
 def Module_gep_expr(self, sty, base, idx):
     """sty: source element type; base: C expr of type sty*; idx: list of (ity, cexpr, literal or None)"""
     ity, iv, lit = idx[0]
@@ -914,7 +987,12 @@ def Module_gep_expr(self, sty, base, idx):
         r = self.resolve(cur)
         if r is None:
             raise SyntaxError('gep into opaque')
-        if r.k == 'lit':
+        if r.k == 'lit' and self.is_union(cur):
+            assert lit is not None
+            off = self.field_offset(r, lit)
+            cur = r.fields[lit]
+            e = '(*(%s *)(%s.u + %d))' % (self.ct(cur), e, off)
+        elif r.k == 'lit':
             assert lit is not None
             e = '%s.f%d' % (e, lit)
             cur = r.fields[lit]
@@ -985,9 +1063,15 @@ def Module_binop_expr(self, op, ty, a, b):
     R = ct(ty)
     A = '(%s)(%s)' % (T, a)
     B = '(%s)(%s)' % (T, b)
-    if op in ('add', 'sub', 'mul', 'and', 'or', 'xor', 'shl'):
-        o = {'add': '+', 'sub': '-', 'mul': '*', 'and': '&', 'or': '|', 'xor': '^', 'shl': '<<'}[op]
+    if op in ('add', 'sub', 'mul', 'and', 'or', 'xor'):
+        o = {'add': '+', 'sub': '-', 'mul': '*', 'and': '&', 'or': '|', 'xor': '^'}[op]
         return mask_expr(bits, '((%s)(%s %s %s))' % (R, A, o, B))
+    # LLVM shifts by >= width give poison, which -O1 code may compute speculatively and then discard; C would
+    # make that undefined behaviour.  The shift amount is masked as the x86 shifter does (for the widths clang emits).
+    cb = 32 if bits <= 32 else (64 if bits <= 64 else 128)
+    B = '(%s & %d)' % (B, cb - 1)
+    if op == 'shl':
+        return mask_expr(bits, '((%s)(%s << %s))' % (R, A, B))
     if op == 'lshr':
         return '((%s)(%s >> %s))' % (R, A, B)
     if op == 'udiv':
@@ -1026,6 +1110,7 @@ def Module_icmp_expr(self, pred, ty, a, b):
 Module.const_value = Module_const_value
 Module.global_ref = Module_global_ref
 Module.gep_expr = Module_gep_expr
+Module.size_align = Module_size_align
 Module.sidx = Module_sidx
 Module.cast_expr = Module_cast_expr
 Module.binop_expr = Module_binop_expr
@@ -1116,6 +1201,7 @@ class FT(FuncTranslator):
             for idx, s in enumerate(insts):
                 t = m.strip_meta(tokenize(s))
                 toks[(lab, idx)] = t
+        self.all_toks = list(toks.values())
         # determine result types
         self.phis = {}   # block label -> list of (cname, ty, [(valtoks, predlabel)])
         for lab, insts in blocks:
@@ -1421,7 +1507,11 @@ class FT(FuncTranslator):
                 cty, j = m.parse_type(t, i + 1)
                 cnt, j = self.value(cty, t, j)
             mem = res + '_mem'
-            if cnt is None:
+            if cnt is None and self.f['name'] in m.recursive:
+                # CBMC gives the locals of all frames of a recursive function one object identity; a pointer to
+                # such a local is therefore not frame-precise.  Allocate the slot per call instead.
+                self.emit('%s = (%s *)ll_new_typed(malloc(sizeof(%s)));' % (res, ct(ty), ct(ty)))
+            elif cnt is None:
                 self.decls.append('%s %s;' % (ct(ty), mem))
                 self.emit('%s = &%s;' % (res, mem))
             else:
@@ -1710,6 +1800,14 @@ class FT(FuncTranslator):
             else:
                 self.emit('__CPROVER_assume(%s);' % args[0][1])
             return
+        if callee_name in ('_Znwm', '_Znam') and res is not None and re.fullmatch(r'\(\(uint64_t\)(\d+)ULL\)', args[0][1] or ''):
+            n = int(re.fullmatch(r'\(\(uint64_t\)(\d+)ULL\)', args[0][1]).group(1))
+            tty = self.new_target_type(t[0][1], n)
+            if tty is not None:
+                # typed allocation: CBMC infers the object type from sizeof, which keeps fields separate
+                self.emit('%s = (uint8_t *)ll_new_typed(malloc(sizeof(%s)));' % (res, ct(tty)))
+                m.uses_typed_new = True
+                return
         if callee_name is not None:
             if callee_name in m.aliases:
                 aty, toks = m.aliases[callee_name]
@@ -1755,6 +1853,20 @@ class FT(FuncTranslator):
             self.emit('%s = %s;' % (res, call))
         else:
             self.emit('%s;' % call)
+
+    def new_target_type(self, resname, n):
+        m = self.m
+        for t in self.all_toks:
+            if len(t) > 5 and t[1][1] == '=' and t[2][1] == 'bitcast' and t[3][1] == 'i8' and t[4][1] == '*' and t[5][1] == resname:
+                for q in range(len(t) - 1, 5, -1):
+                    if t[q][1] == 'to':
+                        ty, _ = m.parse_type(t, q + 1)
+                        if ty.k == 'ptr' and ty.elem.k in ('named', 'lit', 'arr'):
+                            sz, _ = m.size_align(ty.elem)
+                            if sz == n:
+                                return ty.elem
+                        break
+        return None
 
     def string_of(self, expr, t):
         # find a global mentioned in tokens whose init is a cstr
@@ -1863,6 +1975,8 @@ PRELUDE = r'''
 #include <stdint.h>
 #include <stddef.h>
 void __CPROVER_assume(_Bool);
+void *malloc(size_t);
+static inline void *ll_new_typed(void *p) { __CPROVER_assume(p != 0); return p; }
 void ll_memcpy(void *, void *, uint64_t);
 void ll_memmove(void *, void *, uint64_t);
 void ll_memset(void *, uint8_t, uint64_t);
@@ -1882,7 +1996,7 @@ static inline uint32_t ll_fshr32(uint32_t a, uint32_t b, uint32_t s) { s &= 31; 
 '''
 
 
-def translate(text, model_globals=()):
+def translate(text, model_globals=(), skip_ctors=()):
     m = Module(text)
     m.addr_taken = set()
     m.fwd_out = []
@@ -1897,8 +2011,35 @@ def translate(text, model_globals=()):
         m.cname(name, 'g')
     for name in m.func_order:
         m.cname(name, 'g')
+    # functions on a cycle of the direct call graph
+    graph = {}
+    for name in m.func_order:
+        f = m.funcs[name]
+        if f['body'] is None:
+            continue
+        callees = set()
+        for ln in f['body']:
+            if ' call ' in ln or ln.lstrip().startswith('call ') or 'invoke ' in ln:
+                for mm in re.finditer(r'@("[^"]*"|[-a-zA-Z$._0-9]+)\(', ln):
+                    callees.add(mm.group(1))
+        graph[name] = callees
+    m.recursive = set()
+    for start in graph:
+        seen = set()
+        stack = list(graph[start])
+        while stack:
+            x = stack.pop()
+            if x == start:
+                m.recursive.add(start)
+                break
+            if x in seen or x not in graph:
+                continue
+            seen.add(x)
+            stack.extend(graph[x])
     func_text = []
     protos = []
+    stub_defs = {}
+    inline_stubs = []
     for name in m.func_order:
         f = m.funcs[name]
         if name.startswith('llvm.') or name in ('__CPROVER_assert', '__CPROVER_assume', '__CPROVER_cover'):
@@ -1911,6 +2052,23 @@ def translate(text, model_globals=()):
                 ps.append('...')
             r = 'void *' if f['ret'].k == 'ptr' else m.ct(f['ret'])
             protos.append('%s %s(%s);' % (r, m.cname(name, 'g'), ', '.join(ps) if ps else 'void'))
+            simple = f['ret'].k in ('ptr', 'int', 'fp', 'void') and all(p[0].k in ('ptr', 'int', 'fp') for p in f['params'])
+            if simple:
+                pl = ', '.join('%s a%d' % (x, k) for k, x in enumerate(ps) if x != '...')
+                if f['vararg']:
+                    pl = pl + ', ...' if pl else ''
+                body = '__CPROVER_assert(0, "model: unmodelled external function %s reached"); __CPROVER_assume(0);' % name
+                if f['ret'].k != 'void':
+                    body += ' %s r_ = 0; return r_;' % r
+                stub_defs[name] = '%s %s(%s) { %s }' % (r, m.cname(name, 'g'), pl if pl else 'void', body)
+            else:
+                # by-value aggregates in the signature: the stub must live in this unit (it needs the struct types)
+                pl = ', '.join('%s a%d' % (x, k) for k, x in enumerate(ps) if x != '...')
+                body = '__CPROVER_assert(0, "model: unmodelled external function %s reached"); __CPROVER_assume(0);' % name
+                if f['ret'].k != 'void':
+                    body += ' %s r_; return r_;' % r
+                inline_stubs.append('%s %s(%s) { %s }' % (r, m.cname(name, 'g'), pl if pl else 'void', body))
+                stub_defs[name] = ''
             continue
         ft = FT(m, f)
         head, decls, out = ft.translate()
@@ -1927,7 +2085,7 @@ def translate(text, model_globals=()):
             toks = g['init'] or []
             prio = None
             for j, (k, v) in enumerate(toks):
-                if k in ('glob', 'gq'):
+                if k in ('glob', 'gq') and not any(x in v for x in skip_ctors):
                     ctors.append(v[1:])
             continue
         if name.startswith('llvm.'):
@@ -1973,6 +2131,7 @@ def translate(text, model_globals=()):
         parts.append('void vs_init_std_stream(void *);')
     parts.append('void __ll2c_global_ctors(void)\n{\n' + '\n'.join('  vs_init_std_stream((void *)&%s);' % m.cname(c, 'g') for c in std_streams)
                  + '\n' + '\n'.join('  %s();' % m.cname(c, 'g') for c in ctors) + '\n}\n')
+    parts.append('\n'.join(inline_stubs))
     parts.append('\n'.join(func_text))
     meta = dict(
         defined=[n for n in m.func_order if m.funcs[n]['body'] is not None],
@@ -1981,6 +2140,8 @@ def translate(text, model_globals=()):
         undefined_c={n: m.cname(n, 'g') for n in m.func_order if m.funcs[n]['body'] is None},
         external_globals=[n for n in m.global_order if m.globals[n]['external']],
         warnings=m.warnings,
+        recursive=sorted(m.recursive),
+        stub_defs=stub_defs,
         cnames={n: m.cname(n, 'g') for n in m.func_order if m.funcs[n]['body'] is not None},
     )
     return '\n\n'.join(parts), meta
@@ -1995,7 +2156,10 @@ def main():
         metaf = args[args.index('--meta') + 1]
     if '--model-globals' in args:
         mg = set(args[args.index('--model-globals') + 1].split(','))
-    text, meta = translate(open(src).read(), mg)
+    sk = ()
+    if '--skip-ctors' in args:
+        sk = [x for x in args[args.index('--skip-ctors') + 1].split(',') if x]
+    text, meta = translate(open(src).read(), mg, sk)
     open(dst, 'w').write(text)
     if metaf:
         json.dump(meta, open(metaf, 'w'), indent=1)
